@@ -134,7 +134,19 @@ func c19eHexS(s string) string { return c19Hex(s) }
 
 // a hostile name: at most c19eMaxUps dot-dot units in any spelling
 func c19eHostile(r *rand.Rand) (string, string) {
-	switch k := r.Intn(100); {
+	switch k := r.Intn(118); {
+	case k >= 100: // the whole escape in ONE spelling that a decoder turns into "../" (percent-escapes, once or twice)
+		ups := 1 + r.Intn(c19eMaxUps)
+		unit := c19Pick(r, []string{"..%2F", "..%2f", "%2e%2e%2f", "%2E%2E%2F", "%2e%2e/", ".%2e%2f", "..%252F", "%252e%252e%252f", "..%5c", "..+%2F"})
+		leaf := c19Pick(r, c19eLeaves)
+		if r.Intn(2) == 0 {
+			leaf = strings.ReplaceAll(leaf, "/", "%2F")
+		}
+		pre := ""
+		if r.Intn(5) == 0 {
+			pre = strings.ReplaceAll(c19Pick(r, c19eValidPrefixes), "/", "%2F")
+		}
+		return pre + strings.Repeat(unit, ups) + leaf, "encoded"
 	case k < 50: // k ups in one spelling, optional valid prefix, a leaf that exists (or not) outside
 		ups := 1 + r.Intn(c19eMaxUps)
 		unit := c19Pick(r, c19eUpUnits)
